@@ -323,6 +323,7 @@ def run(report, p):
             path = g5.find_path(g5.node_for(c), {g5.exit.id}, avoid=pubs) if True else None
             r5.check(bool(pubs) and path is None, f, c, f"`{norm(c)[:50]}` in {f.name} creates the history folder without a file being published into it on the way out of this function: when the run records nothing (an empty folder named with -sf, everything ignored) an empty ascmhl folder stays behind, which is not a manifest or chain file and makes every later command exit 32", witness=g5.fmt_path(path) if path else None, construct=f"{f.name}: folder created without a file published into it")
 
+    include_rules(report, p, 'c11', ['R11.12'], 'create leaves no other file behind: a writer that raises after the temporary file was opened leaves a stray .mhl.tmp (and, for a first generation, an ascmhl folder without chain file)')
     include_rules(report, p, 'c15', ['R15.1'], 'create adds the manifest AND rewrites the chain file: a writer that can fail on a leftover temporary (exclusive create) or publishes half-written files leaves a manifest without chain entry behind')
     include_rules(report, p, 'c05', ['R5.7'], 'create writes into the ascmhl folder of every history the discovery reports: a folder that is wrongly taken for a nested history gets a stray ascmhl folder written into it')
     include_rules(report, p, 'c08', ['R8.5', 'R8.6'], 'create writes a manifest / chain only in the histories in scope: the commit loop skips every history without records or referenced children, and only looks a parent up after deciding to write')
